@@ -125,6 +125,7 @@ BENIGN = [
  ("b-sequential-index-loop", ["C06", "C07", "C09", "C11"], "batch.go",
   '\tfor i, item := range items {\n\t\tif ctx.Err() != nil {\n\t\t\tresults[i] = NewErrorResult(fmt.Errorf("context cancelled"))',
   '\tfor i := 0; i < len(items); i++ {\n\t\titem := items[i]\n\t\tif ctx.Err() != nil {\n\t\t\tresults[i] = NewErrorResult(fmt.Errorf("context cancelled"))'),
+ ("b-rename-captured-variables", ["C06", "C09", "C12", "C17"], "batch.go", None, None, [("batch.go", "idx", "slot"), ("batch.go", "itm", "entry"), ("batch.go", "shouldStop", "halt"), ("builder.go", "fn", "userFn")]),
  ("b-error-message-text", ["C04", "C05"], "flyt.go", 'fmt.Errorf("run: prep failed: %w", err)', 'fmt.Errorf("run: preparation phase failed: %w", err)'),
  ("b-store-get-explicit-unlock", ["C13", "C14", "C15"], "flyt.go",
   '\ts.mu.RLock()\n\tdefer s.mu.RUnlock()\n\tval, ok := s.data[key]\n\treturn val, ok', '\ts.mu.RLock()\n\tval, ok := s.data[key]\n\ts.mu.RUnlock()\n\treturn val, ok'),
